@@ -55,7 +55,7 @@ func checkC12(c *km.Ctx) {
 	r.Assume = []string{"go-jose signature verification", "go/types + go/ssa model the source faithfully"}
 
 	r.Rule("R-C12-1", "both minting calls of the token endpoint are dominated by: code verified ∧ client authenticated ∧ client == code.sub ∧ code.exp >= now ∧ redirect_uri equal ∧ type == token_endpoint", 1)
-	r.Rule("R-C12-2", "the client-authentication flag is true only from the PKCE verifier under 'client may use PKCE' or from the secret comparison under a non-empty secret, for the client named in the request", 1)
+	r.Rule("R-C12-2", "the client-authentication flag is true only from the PKCE verifier under 'client may use PKCE' or from the secret comparison under a non-empty secret, for the client named in the request; the secret comparison is the plain equality of the submitted and the configured string", 1)
 	r.Rule("R-C12-3", "the PKCE verifier returns true only from verifier==challenge (plain/empty method) or base64url(sha256(verifier))==challenge (S256), with the challenge decrypted from the same code; anything else is false", 2)
 	r.Rule("R-C12-4", "field provenance: ID token (iss=this server, sub=code.username, aud=[client], nonce=code.nonce, exp=code.auth_exp), access token (username=code.username, exp=ID token exp, type=bearer), code (username=authenticated user, sub=resolved client, redirect_uri=validated string, auth_exp=now+16h const, exp=now+300s const) and userinfo (identity = access token's username)", 8)
 
